@@ -98,6 +98,11 @@ class Interrupt(BaseException):
     code that cleans up after a failed construction in `except Exception` misses it"""
 
 
+class HardFault(BaseException):
+    """a fault that is not an `Exception` (Ctrl-C during a slow callback): a rollback written as `except Exception`
+    does not see it"""
+
+
 class NotAVertex:
     """an object that is not a Vertex (ill-typed constructor argument)"""
 
